@@ -10,16 +10,19 @@ Open Scope Z_scope.
 
 Section Variant.
   Variable lockS delS : list lval -> list lval -> M lval.
-  Variable leasef : Z -> Z.
+  Variable leasef : Z -> option Z -> Z.      (* seconds, ms left until the context's deadline *)
+
+  Definition v_acq (key : bulk) (s : state) (i : nat) (dl : option Z) : state * obs :=
+    match nth_error (insts s) i with
+    | Some l => let '(r, st') := eval lockS [key] [BStr (iid l); BInt (leasef (isecs l) dl)] (store s) in
+                (mkState st' (insts s), acquire_reply r)
+    | None => (s, RU)
+    end.
 
   Definition v_step (key : bulk) (s : state) (o : op) : state * obs :=
     match o with
-    | OAcquire i =>
-      match nth_error (insts s) i with
-      | Some l => let '(r, st') := eval lockS [key] [BStr (iid l); BInt (leasef (isecs l))] (store s) in
-                  (mkState st' (insts s), acquire_reply r)
-      | None => (s, RU)
-      end
+    | OAcquire i => v_acq key s i None
+    | OAcquireCtx i dl => v_acq key s i dl
     | ORelease i =>
       match nth_error (insts s) i with
       | Some l => let '(r, st') := eval delS [key] [BStr (iid l)] (store s) in
@@ -37,9 +40,9 @@ Section Variant.
 End Variant.
 
 (* the variant machinery instantiated with today's scripts and lease IS the model *)
-Lemma variant_today key s o : v_step Lua_lock.script Lua_del.script lease key s o = step key s o.
+Lemma variant_today key s o : v_step Lua_lock.script Lua_del.script (fun secs _ => lease secs) key s o = step key s o.
 Proof.
-  destruct o as [i|i| | | | |]; try reflexivity; cbn [v_step step];
+  destruct o as [i|i| | | | | |i dl]; try reflexivity; cbn [v_step step]; unfold v_acq;
     (destruct (nth_error (insts s) i) as [l|]; [|reflexivity]); unfold acquire, release;
     match goal with |- context [eval ?sc ?a ?b ?c] => destruct (eval sc a b c) end; reflexivity.
 Qed.
@@ -52,7 +55,7 @@ Definition spec_of (ops : list op) := sp_run (abs k three) ops.
    lease is 1000 times too long; after the configured 5.5 s nobody else gets the lock *)
 Definition h1 := [OSetExpire 0 5; OAcquire 0; OAcquire 0; OTtl; OAdvance 5501; OAcquire 1].
 Theorem refresh_by_expire_refuted :
-  v_run LuaPin_lock_refresh_expire.script Lua_del.script lease k three h1
+  v_run LuaPin_lock_refresh_expire.script Lua_del.script (fun secs _ => lease secs) k three h1
     = [RU; RB true false; RB true false; RT (Some (Some 5500000)); RU; RB false false] /\
   spec_of h1 = [RU; RB true false; RB true false; RT (Some (Some 5500)); RU; RB true false].
 Proof. vm_compute. split; reflexivity. Qed.
@@ -61,7 +64,7 @@ Proof. vm_compute. split; reflexivity. Qed.
    new holder's lock and a third instance gets in *)
 Definition h2 := [OSetExpire 0 1; OAcquire 0; OAdvance 1500; OAcquire 1; ORelease 0; OAcquire 2].
 Theorem release_without_owner_check_refuted :
-  v_run Lua_lock.script LuaPin_del_unconditional.script lease k three h2
+  v_run Lua_lock.script LuaPin_del_unconditional.script (fun secs _ => lease secs) k three h2
     = [RU; RB true false; RU; RB true false; RB true false; RB true false] /\
   spec_of h2 = [RU; RB true false; RU; RB true false; RB false false; RB false false].
 Proof. vm_compute. split; reflexivity. Qed.
@@ -71,7 +74,7 @@ Proof. vm_compute. split; reflexivity. Qed.
 Definition lease_u32 (secs : Z) : Z := (secs * 1000 + 500) mod 4294967296.
 Definition h3 := [OSetExpire 0 4294968; OAcquire 0; OTtl; OAdvance 1204; OAcquire 1].
 Theorem lease_in_uint32_refuted :
-  v_run Lua_lock.script Lua_del.script lease_u32 k three h3
+  v_run Lua_lock.script Lua_del.script (fun secs _ => lease_u32 secs) k three h3
     = [RU; RB true false; RT (Some (Some 1204)); RU; RB true false] /\
   spec_of h3 = [RU; RB true false; RT (Some (Some 4294968500)); RU; RB false false] /\
   (forall secs, 0 <= secs <= 4294966 -> lease_u32 secs = secs * 1000 + 500).
@@ -98,3 +101,20 @@ Proof.
   exists 0%nat, 1%nat, (mkInst "same" 0), (mkInst "same" 0).
   repeat split; try reflexivity. discriminate.
 Qed.
+
+(* seeded C19-7: AcquireCtx caps the lease at the time left until the context's deadline + 500 ms.
+   SetExpire(10), a request context with 2 s left: the holder is told (true, nil) but the key lives
+   2500 ms instead of 10500; a refresh SHRINKS a full lease; 3 s later another instance acquires
+   inside the configured lease and the first holder's Release answers false. *)
+Definition lease_capped (secs : Z) (dl : option Z) : Z :=
+  match dl with Some d => Z.min (lease secs) (Z.max d 0 + 500) | None => lease secs end.
+Definition h5 := [OSetExpire 0 10; OAcquireCtx 0 (Some 2000); OTtl; OAdvance 3000; OAcquire 1; ORelease 0].
+Definition h6 := [OSetExpire 0 10; OAcquire 0; OTtl; OAcquireCtx 0 (Some 2000); OTtl].
+Theorem lease_capped_by_context_refuted :
+  v_run Lua_lock.script Lua_del.script lease_capped k three h5
+    = [RU; RB true false; RT (Some (Some 2500)); RU; RB true false; RB false false] /\
+  spec_of h5 = [RU; RB true false; RT (Some (Some 10500)); RU; RB false false; RB true false] /\
+  v_run Lua_lock.script Lua_del.script lease_capped k three h6
+    = [RU; RB true false; RT (Some (Some 10500)); RB true false; RT (Some (Some 2500))] /\
+  spec_of h6 = [RU; RB true false; RT (Some (Some 10500)); RB true false; RT (Some (Some 10500))].
+Proof. vm_compute. repeat split; reflexivity. Qed.
